@@ -123,14 +123,14 @@ CLAIMED["C39"] = (
 
 CLAIMED["C37"] = (
     "Proof of the decision kernels of command location expansion: quote leaves strings without shell-special characters unchanged and quotes "
-    "every string with a word-splitting character — proved outside the recorded known-finding region (blank/tab/newline without |&;()<>, where "
-    "the real code does not quote; a canary obligation keeps that region honest); handleDir and fileDestination return the location at which "
+    "every string with a word-splitting character, whitespace included (the whitespace case was a recorded known finding until repaired in "
+    "/repo); handleDir and fileDestination return the location at which "
     "the output exists (out dir, ./out for a test's own binary, package-relative otherwise); checkAndReplaceSequence returns normally only if "
     "the sequence does not have the wrong number of outputs, is not $(exe) of a non-binary or output-less rule and is not a tool at test time "
     "(it panics otherwise, which the caller turns into an error). Kernel-only: the regex dispatch, dependency lookup and the per-path "
     "join loop are not under contract.",
     COMMON_NOTE + "Outputs()/OutDir() are assumed pure functions of the target; filepath.Join is uninterpreted.",
-    "contract-based deductive verification (own VC generator + SMT, known-finding region)", "6/C37")
+    "contract-based deductive verification (own VC generator + SMT)", "6/C37")
 
 CLAIMED["C21"] = (
     "Proof of glob()'s filtering kernels: isInDirectories / isBathPathOf are component-wise containment; shouldExcludeMatch excludes a match "
